@@ -103,6 +103,43 @@ def handle : List String → Option String
     let (pots, t1) ← pVec pFloat rest
     if t1 ≠ [] then none else
     pure ("ok " ++ sFloat (robustPotential pots vb vr))
+  | ["C16.lapconsts"] =>
+    some (String.intercalate " " ["ok", sFloat (lapCutoffDefault : Float), sFloat (lapCutOffDefault : Float), sBool lapRequiresStore,
+      toString lapFirstOrder, toString lapSecondOrder, toString lapThirdOrder])
+  | ["C16.lapclamp", r, c] => do
+    let r ← pFloat r
+    let c ← pFloat c
+    pure ("ok " ++ sFloat (lapClamp r c))
+  | ["C16.lapdeg", lmax] => do
+    let lmax ← pNat lmax
+    let ds := lapDegrees lmax
+    pure (String.intercalate " " ("ok" :: toString ds.length :: ds.map toString))
+  | "C16.lap" :: lmax :: r :: c :: rest => do
+    let lmax ← pNat lmax
+    let r ← pFloat r
+    let c ← pFloat c
+    let (rho, t1) ← pVec pFloat rest
+    let (rho1, t2) ← pVec pFloat t1
+    let (rho2, t3) ← pVec pFloat t2
+    let (ys, t4) ← pVec pFloat t3
+    let degs : List Float := lapDegreesK lmax
+    if t4 ≠ [] then none else
+    if rho.length ≠ ys.length ∨ rho1.length ≠ ys.length ∨ rho2.length ≠ ys.length ∨ degs.length ≠ ys.length then pure "value-error" else
+    pure ("ok " ++ sFloat (laplacianAt rho rho1 rho2 degs ys r c))
+  | "C16.lapslices" :: rest => do
+    let (f, t1) ← pVec pFloat rest
+    let (w, t2) ← pVec pFloat t1
+    let (idx, t3) ← pVec pNat t2
+    if t3 ≠ [] ∨ f.length ≠ w.length then none else
+    match lapTermSlices f w idx with
+    | some ss => pure (String.intercalate " " ("ok" :: toString ss.length :: ss.map fun p => toString p.1 ++ " " ++ sFloats p.2))
+    | none => pure "index-error"
+  | "C16.lapsum" :: rest => do
+    let (vs, t1) ← pVec pFloat rest
+    if t1 ≠ [] then none else
+    match lapSum vs with
+    | some v => pure ("ok " ++ sFloat v)
+    | none => pure "index-error"
   | _ => none
 
 end GridVerif.Driver.C16
